@@ -756,12 +756,18 @@ class Header:
         subint_hdr = pfits.SubintHdr(filename)
 
         header: dict[str, Any] = {}
+        foff = float(subint_hdr.freqs.foff.value)
+        fch1 = float(subint_hdr.freqs.fch1.value)
+        if foff > 0:
+            # The reader delivers channels in descending-frequency order
+            fch1 += foff * (subint_hdr.nchans - 1)
+            foff = -foff
         hdr_update = {
             "filename": filename,
             "data_type": "filterbank",
             "nchans": subint_hdr.nchans,
-            "foff": float(subint_hdr.freqs.foff.value),
-            "fch1": float(subint_hdr.freqs.fch1.value),
+            "foff": foff,
+            "fch1": fch1,
             "nbits": subint_hdr.nbits,
             "tsamp": subint_hdr.tsamp,
             "tstart": primary_hdr.tstart.mjd,
